@@ -101,6 +101,8 @@ func loadProgram(repo, hdir string, extraPkgs []string) (*Engine, error) {
 	}
 	e.redirects["errors.Is"] = verifPkg + ".ErrorsIs"
 	e.redirects["errors.As"] = verifPkg + ".ErrorsAs"
+	e.redirects["github.com/google/gopacket.FoldChecksum"] = verifPkg + ".ModelFoldChecksum"
+	e.redirects["github.com/google/gopacket/layers.checksum"] = verifPkg + ".ModelIPv4Checksum"
 	e.redirects["context.Background"] = verifPkg + ".CtxBackground"
 	e.redirects["context.TODO"] = verifPkg + ".CtxBackground"
 	e.redirects["context.WithCancel"] = verifPkg + ".CtxWithCancel"
@@ -119,7 +121,7 @@ func (e *Engine) newState(job *Job, solverKind string, timeoutMs int) (*State, e
 	}
 	st := &State{eng: e, tp: tp, solver: sv, globals: map[*ssa.Global]*Obj{}, initFailed: map[*ssa.Package]string{}, inited: map[*ssa.Package]bool{},
 		known: map[int]uint64{}, uniq: map[string]Pointer{}, errSent: map[string]Value{}, rb: map[int][2]uint64{},
-		now: uint64(1_000_000_000_000), job: job, sched: &Sched{nextGID: 1}, schedChoice: map[string]int{}, altModels: map[int]Model{}}
+		now: uint64(1_000_000_000_000), job: job, model: Model{}, sched: &Sched{nextGID: 1}, schedChoice: map[string]int{}, altModels: map[int]Model{}}
 	return st, nil
 }
 
@@ -158,7 +160,7 @@ func (e *Engine) runJob(spec JobSpec, kfOpen map[string]bool) (job *Job) {
 	job.deadline = t0.Add(time.Duration(to) * time.Second)
 	solver := spec.Solver
 	if solver == "" {
-		solver = "z3"
+		solver = "z3-new"
 	}
 	qms := spec.QueryMs
 	if qms == 0 {
@@ -170,9 +172,22 @@ func (e *Engine) runJob(spec JobSpec, kfOpen map[string]bool) (job *Job) {
 		return job
 	}
 	defer st.solver.Close()
+	if smtLogPath != "" {
+		f, _ := os.Create(smtLogPath)
+		st.solver.log = f
+		defer f.Close()
+	}
+	if e.verbose > 0 {
+		st.solver.slowHook = func(d time.Duration, r SatResult) {
+			fmt.Printf("[slow check %.1fs %v] pc=%d %s\n", d.Seconds(), r, len(st.pc), st.where())
+		}
+	}
 	defer func() {
 		job.wall = time.Since(t0)
 		job.solverTime = st.solver.Stats.Time
+		if e.verbose > 0 {
+			fmt.Printf("solver: check %.1fs model %.1fs send %.1fs\n", st.solver.Stats.Time.Seconds(), st.solver.Stats.ModelTime.Seconds(), st.solver.Stats.SendTime.Seconds())
+		}
 		if r := recover(); r != nil {
 			buf := make([]byte, 8192)
 			n := runtime.Stack(buf, false)
@@ -234,6 +249,7 @@ type jobReport struct {
 	Forks        int                    `json:"forks"`
 	Queries      map[string]int         `json:"queries"`
 	QuickDecided int                    `json:"decided_by_intervals"`
+	Brute        int                    `json:"decided_by_enumeration"`
 	Asserts      map[string]*AssertStat `json:"assertions"`
 	Reach        map[string]int         `json:"reach_marks"`
 	Violations   []Violation            `json:"violations,omitempty"`
@@ -245,9 +261,9 @@ type jobReport struct {
 
 func (j *Job) report() jobReport {
 	return jobReport{Harness: j.Harness, Params: j.Params, Paths: j.paths, SymPaths: j.symPaths, Forks: j.forks,
-		Queries: map[string]int{"unsat": j.nq[Unsat], "sat": j.nq[Sat], "unknown": j.nq[Unknown]}, QuickDecided: j.quick,
+		Queries: map[string]int{"unsat": j.nq[Unsat], "sat": j.nq[Sat], "unknown": j.nq[Unknown]}, QuickDecided: j.quick, Brute: j.brute,
 		Asserts: j.asserts, Reach: j.reachCount, Violations: j.violations, KnownHits: j.knownHits, Inconclusive: j.inconclusive,
-		WallS: j.wall.Seconds(), SolverS: j.solverTime.Seconds()}
+		WallS: j.wall.Seconds(), SolverS: j.solveTime.Seconds()}
 }
 
 func main() {
@@ -286,7 +302,7 @@ func cmdRun(args []string) {
 	fn := fs.String("fn", "", "harness function")
 	verbose := fs.Int("v", 0, "verbosity")
 	timeout := fs.Int("timeout", 600, "seconds")
-	solver := fs.String("solver", "z3", "solver")
+	solver := fs.String("solver", "z3-new", "solver")
 	smtlog := fs.String("smtlog", "", "log solver input")
 	cpuprof := fs.String("cpuprofile", "", "write cpu profile")
 	params := paramFlag{}
